@@ -25,6 +25,18 @@ MAGICS = ('aa55', 'aa557f', 'aa55c07f', 'f703', 'f783', '7f03', '0000', 'ffff', 
 
 
 def frame(framing, count, req, fill=0, at=None):
+    mbap = None
+    if isinstance(at, tuple) and at and at[0] == 'mbap':
+        mbap, at = at[1], None
+    f = _frame(framing, count, req, fill, at)
+    if mbap is not None and framing == 'tcp':
+        # GoodWe devices fill the MBAP length field unreliably (the library ignores it on purpose): byte count only / 0
+        ln = {'bytecount': 2 * count, 'zero': 0, 'six': 6}[mbap]
+        f = f[:4] + struct.pack('>H', ln) + f[6:]
+    return f
+
+
+def _frame(framing, count, req, fill=0, at=None):
     pl = bytearray(payload(2 * count, fill))
     if at:                           # (position inside the FRAME, bytes): only positions inside the payload
         pos, b = at
@@ -92,6 +104,14 @@ def positive_cases(framing, counts, delays):
                 yield ('pos', framing, count, p, d2)
         if framing == 'tcp':
             yield ('pos-coalesced', framing, count, MINH[framing] + 1, 'same')
+    if framing == 'tcp':
+        for count in [c for c in counts if c in (1, 3, 61)] or counts[:1]:
+            L = len(_frame(framing, count, b'\0\0'))
+            for mb in ('bytecount', 'zero', 'six'):
+                for p in range(MINH[framing], L):
+                    if count > 3 and p not in (MINH[framing], MINH[framing] + 1, L // 2, L - 1):
+                        continue
+                    yield ('pos', framing, count, p, '.5T', 'mbap=' + mb)
     # the remainder begins with a byte sequence the receive path knows (header, unit + function, exception marker ...)
     for count in [c for c in counts if c in (2, 3, 61)] or counts[:1]:
         L = len(frame(framing, count, b'\0\0'))
@@ -126,7 +146,7 @@ def run_case(case, ka, T=1.0):
         d2name = case[4]
         d2 = {'0+': 2 * D0, '.5T': .5 * T, 'T-e': T - e, 'same': D0}[d2name]
 
-        at = (p, bytes.fromhex(case[5])) if len(case) > 5 else None
+        at = (('mbap', case[5][5:]) if str(case[5]).startswith('mbap=') else (p, bytes.fromhex(case[5]))) if len(case) > 5 else None
 
         def plan(k, req, now):
             if k:
@@ -341,7 +361,7 @@ def job(j):
         for clause, cause in v:
             sub = case[4] if case[0] in ('neg',) else (f'{case[4]}/{case[5]}' if case[0] in ('left', 'cross') else case[4])
             if case[0] == 'pos' and len(case) > 5:
-                sub = f'remainder-begins-with-{case[5]}'
+                sub = f'remainder-begins-with-{case[5]}' if not str(case[5]).startswith('mbap=') else f'unreliable-length-field:{case[5][5:]}'
             key = f'{clause}/{framing}/ka={int(ka)}/{case[0]}:{sub}'
             vio.setdefault(key, []).append((clause, case, cause))
     out = []
